@@ -25,7 +25,10 @@ GVal(k) == Col(rows[Idx(k)[1]], "g")
 
 \* aggregate value of one definition over the group's rows, as a reference value
 AggVal(d, ix) ==
-  LET xs == [i \in 1..Len(ix) |-> Col(rows[ix[i]], d.arg)]  u == Usable(xs) IN
+  \* the argument is the column d.arg, or (d.abs = 1) abs() of it: an aggregate over an EXPRESSION of the row
+  LET raw(i) == Col(rows[ix[i]], d.arg)
+      xs == [i \in 1..Len(ix) |-> IF "abs" \in DOMAIN d /\ d.abs = 1 /\ raw(i).k = "num" /\ raw(i).v < 0 THEN NumV(-raw(i).v) ELSE raw(i)]
+      u == Usable(xs) IN
   CASE d.fn = "count_star" -> Rat(Len(ix), 1)
     [] d.fn = "count" -> Rat(Len(NonNull(xs)), 1)
     [] d.fn = "sum"   -> IF u = <<>> THEN NullV ELSE Norm(SumF(u), Scale)
